@@ -90,12 +90,8 @@ func (r Rounder) Round(c *Context, d, x *Decimal, disableIfPrecisionZero bool) C
 
 	diff := nd - int64(c.Precision)
 	if diff > 0 {
-		if diff > MaxExponent {
-			return SystemOverflow | Overflow
-		}
-		if diff < MinExponent {
-			return SystemUnderflow | Underflow
-		}
+		// Any number of digits can be discarded: it is the resulting exponent
+		// that has limits, and setExponent checks it below.
 		res |= Rounded
 		var y, m BigInt
 		e := tableExp10(diff, &y)
